@@ -3,11 +3,13 @@
 \* (TheoremsHold is violated): shows the C06 invariants are not vacuous.
 CONSTANTS
   Atomic = FALSE
+  DropDetached = TRUE
   Namespace = {1}
   M = 2
   MaxTs = 1
   Classes = {"ok", "rejectLater"}
   MaxBad = 2
+  AllowDetached = FALSE
   Emit = FALSE
   EmitMod = 1
 INIT InitGraphs
